@@ -13,9 +13,9 @@ from .common import Inconclusive, Violation
 BACKENDS = ['t', 'mp', 'dill_mp', 'multiprocessing', 'concurrent_mp']
 
 
-def pool_task(x, delays=(), fails=None, log=None, salt=0, vk=None):
+def pool_task(x, delays=(), fails=None, log=None, salt=0, vk=None, none_pos=None):
     """x is ('v', i). Sleeps delays[i] ms (later tasks may finish first), appends start/end markers, may raise."""
-    i = x[1]
+    i = none_pos if x is None else x[1]  # the source example at none_pos is None (a legitimate example)
     if log:
         fd = os.open(log, os.O_WRONLY | os.O_APPEND | os.O_CREAT)
         os.write(fd, f'start {i}\n'.encode())
@@ -60,11 +60,11 @@ def run_pool_case(case):
     log = os.path.join(tmp, 'markers.log')
     salt = case.get('salt', 0)
     fn = functools.partial(pool_task, delays=delays, fails=fails, log=log if case.get('markers') else None, salt=salt,
-                           vk=case.get('vk'))
+                           vk=case.get('vk'), none_pos=case.get('src_none'))
     out = {'delivered': [], 'exc': None, 'len': None, 'closed': False}
     try:
         with _Alarm(90):
-            vals = [('v', i) for i in range(n)]
+            vals = [None if i == case.get('src_none') else ('v', i) for i in range(n)]
             if api == 'lpm':
                 it = pu.lazy_parallel_map(fn, iter(vals), buffer_size=b, max_workers=w, backend=be)
             else:
@@ -208,6 +208,8 @@ def st_pool_case(draw, profile, backends=BACKENDS):
             'delays': draw(st.lists(st.sampled_from([0, 0, 1, 2, 4, 8]), min_size=n, max_size=n))}
     if draw(st.integers(0, 2)) == 0:
         case['vk'] = draw(st.sampled_from(progs.VALUE_KINDS[1:]))
+    if n and draw(st.integers(0, 3)) == 0:
+        case['src_none'] = draw(st.integers(0, n - 1))
     if api in ('pm', 'pf') and draw(st.booleans()):
         if api == 'pf':
             case['src'] = 'dict'
